@@ -48,6 +48,13 @@ def sources(tier, seed, ctx):
                 srcs.append({'k': 'fn', 'n': n, 'm': m, 'tt': f, 'rep': rep, 'positional': (k % 2 == 0)})
             if any(sorted(t) == [r for r in range(2 ** n) if (r >> (n - 1 - j)) & 1] for t in f for j in range(n)):
                 srcs.append({'k': 'fn', 'n': n, 'm': m, 'tt': f, 'rep': 'Circuit', 'direct': True})
+    # the circuit representation with one path longer than the interpreter's recursion limit (every two-input function,
+    # a few with two outputs): every protocol query of a deep circuit
+    for code in range(16):
+        f = [sorted(r for r in range(4) if (code >> r) & 1)]
+        if code % 5 == 0:
+            f.append(sorted(r for r in range(4) if ((code * 7 + 3) >> r) & 1))
+        srcs.append({'k': 'fn', 'n': 2, 'm': len(f), 'tt': f, 'rep': 'Circuit', 'deep': 1200 if tier == 'quick' else 3000})
     # python callables that return (a view of) the very list they were given: identity and projections
     for n in (1, 2, 3):
         srcs.append({'k': 'fn', 'n': n, 'm': n, 'tt': [sorted(r for r in range(2 ** n) if (r >> (n - 1 - j)) & 1) for j in range(n)], 'rep': 'PyFunction', 'alias': 'identity'})
@@ -92,13 +99,21 @@ def _table(n, m, tt):
     return [[r in set(tt[k]) for r in range(2 ** n)] for k in range(m)]
 
 
-def _dnf_circuit(n, m, tt, direct=False):
+def _dnf_circuit(n, m, tt, direct=False, deep=0):
     from cirbo.core.circuit import Circuit, gate as G
 
     c = Circuit()
     ins = [f'x{j}' for j in range(n)]
     c.add_inputs(ins)
     neg = {}
+    if deep and n:
+        # the first input reaches the formula through an even number of negations: one path longer than the
+        # interpreter's recursion limit, the same function
+        prev = ins[0]
+        for k in range(2 * (deep // 2)):
+            c.emplace_gate(f'dn{k}', G.NOT, (prev,))
+            prev = f'dn{k}'
+        ins = [prev] + ins[1:]
 
     def lit(j, val):
         if val:
@@ -167,7 +182,7 @@ def _make(src):
             return TruthTable([[int(x) for x in row] for row in table])
         return TruthTable(table)
     if src['rep'] == 'Circuit':
-        return _dnf_circuit(n, m, tt, direct=bool(src.get('direct')))
+        return _dnf_circuit(n, m, tt, direct=bool(src.get('direct')), deep=src.get('deep', 0))
     cols = [[table[k][r] for k in range(m)] for r in range(2 ** n)]
 
     def lookup(args):
